@@ -33,6 +33,9 @@ def enc_list(l):
 
 def enc_pairs(l):
     l = list(l)
+    for k, v in l:
+        if type(k) is not str or type(v) is not str:
+            return "!nonstr-pair:%s=%s" % (type(k).__name__, type(v).__name__)
     return "Q%d:%s" % (len(l), ",".join(enc(k) + "=" + enc(v) for k, v in l))
 
 
@@ -40,19 +43,34 @@ class Other:
     pass
 
 
+class StrSub(str):
+    pass
+
+
+class IntSub(int):
+    pass
+
+
+class FloatSub(float):
+    pass
+
+
 def dec_qval(s):
+    # every third str / int / finite float value is handed over as an instance of a plain SUBCLASS (query_var's
+    # slow paths); the model does not distinguish them (the property speaks of "ints and floats", "str")
     t = s[0]
     if t == "s":
-        return dec(s[1:])
+        v = dec(s[1:])
+        return StrSub(v) if len(s) % 3 == 0 else v
     if t == "i":
-        return int(s[1:])
+        return IntSub(s[1:]) if len(s) % 3 == 0 else int(s[1:])
     if t == "f":
         kind = s[1]
         if kind == "1":
             return float("inf") if not dec(s[3:]).startswith("-") else float("-inf")
         if kind == "2":
             return float("nan")
-        return float(dec(s[3:]))
+        return FloatSub(dec(s[3:])) if len(s) % 3 == 0 else float(dec(s[3:]))
     if t == "b":
         return True
     if t == "n":
@@ -163,6 +181,8 @@ def observe(u, name):
     if name == "human_repr":
         return enc(u.human_repr())
     if name == "absolute":
+        if u.is_absolute() is not u.absolute:
+            return "!is_absolute-differs"
         return enc_bool(u.absolute)
     if name == "bool":
         return enc_bool(bool(u))
@@ -190,6 +210,8 @@ def modify(u, name, args):
         return u.with_path(dec(args[0]), encoded=dec_bool(args[1]), keep_query=dec_bool(args[2]), keep_fragment=dec_bool(args[3]))
     if name in ("with_query", "extend_query", "update_query"):
         a, kw = dec_qarg(args[0])
+        if name == "update_query" and len(a) == 1 and not kw and len(args[0]) % 2 == 0:
+            return u % a[0]          # the operator form is documented as the same operation
         return getattr(u, name)(*a, **kw)
     if name == "without_query_params":
         return u.without_query_params(*[dec(a) for a in args])
